@@ -36,8 +36,8 @@ pub enum Rec {
     Pushed(String),
     /// bytes appended to `write_queue` by the loop itself (size query after SIGWINCH)
     Queued(usize),
-    /// steps of `dispose`
-    Dispose { step: &'static str, queued: usize, events: usize },
+    /// steps of `dispose`; `signals_closed`: the signal handle is closed at that point
+    Dispose { step: &'static str, queued: usize, events: usize, signals_closed: bool },
     /// `tcsetattr(saved)` is about to be called with these settings
     Restore(Vec<u32>),
 }
